@@ -474,6 +474,11 @@ def register_numpy():
                 data = data, hash_buffer_hex(lengths)
             except (TypeError, UnicodeDecodeError):
                 return normalize_object(x)
+        elif _has_padding(x.dtype):
+            # The bytes between the fields of an aligned record are not part
+            # of its value (np.zeros and np.empty leave different ones behind):
+            # hash field by field
+            data = tuple(normalize_token(x[name]) for name in x.dtype.names)
         else:
             # Hash the elements in logical (C) order. The order they have in
             # memory (order="K") is not determined by dtype, shape and values:
@@ -484,6 +489,16 @@ def register_numpy():
             except (BufferError, AttributeError, ValueError):
                 data = hash_buffer_hex(x.copy().ravel(order="C").view("i1"))
         return (data, x.dtype, x.shape)
+
+    def _has_padding(dtype):
+        # Does a record of this (structured) dtype hold bytes that belong to
+        # none of its fields?
+        if dtype.names is None:
+            return False
+        fields = [dtype.fields[name][0] for name in dtype.names]
+        return sum(f.itemsize for f in fields) != dtype.itemsize or any(
+            _has_padding(f.base) for f in fields
+        )
 
     @normalize_token.register(np.ma.masked_array)
     def normalize_masked_array(x):
